@@ -86,7 +86,8 @@ func init() {
 			// key are computed lazily while the iterator looks for its position
 			Spec{Name: "iter-map-realcoll-T256", Kind: "iter+map-small", T: 256, Keys: 1, Extra: map[string]int{"realcoll": 3}, Classes: []string{"t", "s60"}, Oracles: or},
 		)
-		r.ExploreSpecs(specs)
+		// (the closures above are explored LAST: they are the most expensive group, and the multi-level trees below
+		// must not be cut off by the internal deadline on a busy machine)
 		// collision groups (incl. external groups straddling slabs): every digest assignment of 3 keys
 		m := 3
 		as := DigestAssignments(m)
@@ -122,5 +123,6 @@ func init() {
 			ts = append(ts, TrajSpecs(r.ID, sc, 64, 4, 65, 2*step, 1, 256, []string{"t", "limM"}, tor)...)
 		}
 		r.ExploreSpecs(ts)
+		r.ExploreSpecs(specs)
 	}})
 }
